@@ -3,7 +3,8 @@ generated histories of API calls with a recording scheduler and a unit-count ter
 
 case = {"started": bool, "ops": [op, ...]}
   op = ["add", script, co]      cooperate(iterator) (co=False) / coiterate(iterator) (co=True)
-                                script = list of "y" (yield a value) | ["d", j] (yield Deferred j) | "r" (raise)
+                                script = list of "y" (yield a value) | ["d", j] (yield Deferred j) | "r" (raise an Exception)
+                                | "rb" (raise SystemExit / GeneratorExit / a BaseException subclass — NOT an Exception)
                                 | ["sc", j] / ["sp", j]: yield Deferred j that (unless the history fired j earlier) has already
                                   been FIRED but whose callback chain is suspended — "sc": a callback returned an unfired
                                   Deferred, "sp": it was pause()d — and delivers its result only at ["fire", j, ok];
@@ -46,6 +47,9 @@ def impl(case) -> str:
     from twisted.python.failure import Failure as TFailure
 
     class Boom(Exception):
+        pass
+
+    class Quit(BaseException):
         pass
 
     class DefFail(Exception):
@@ -127,6 +131,8 @@ def impl(case) -> str:
                 return self.i
             if a == "r":
                 raise Boom()
+            if a == "rb":
+                raise (SystemExit, GeneratorExit, Quit)[self.t % 3]()
             return getd(a[1], a[0])
 
     def res(r, it):
@@ -137,7 +143,7 @@ def impl(case) -> str:
                 return "S"
             if r.check(task.SchedulerStopped):
                 return "X"
-            if r.check(Boom):
+            if r.check(Boom, Quit, SystemExit, GeneratorExit):
                 return "R"
             if r.check(DefFail):
                 return f"F{r.value.j}"
@@ -232,7 +238,10 @@ def impl(case) -> str:
                 dc = live[0]
                 dc.state = "called"
                 units[0] = op[1]
-                dc.f()
+                try:
+                    dc.f()
+                except (SystemExit, GeneratorExit, Quit) as e:
+                    evs.append("!B" + type(e).__name__)       # an iterator's exception escaped the scheduler tick
         elif k == "fire":
             do_fire(op[1], op[2])
         elif k == "cstop":
@@ -378,7 +387,7 @@ def oracle(case, obs):
         else:
             a = x.script[x.i]
             x.i += 1
-            if a == "r":
+            if a in ("r", "rb"):
                 finish(x, "R", "!F")
                 left_list(x)
             elif a != "y":
@@ -402,6 +411,9 @@ def oracle(case, obs):
             expect_exc = None
             before = {i: x.fin for i, x in enumerate(T)}
             cause = k
+            if any(e.startswith("!B") for e in es):
+                return Failure(case, where + "an exception raised by an iterator escaped the scheduler tick (the task is not "
+                               "completed, the other tasks are not rescheduled)", "iterator-exception-escaped-tick")
             if any(e.startswith("r!") for e in es):
                 return None        # a reaction's resume() raised: unmatched resume, outside the property's histories
             if any(e.startswith(("a",)) for e in es) and k != "tick":
@@ -529,7 +541,7 @@ def normalize(case):
     for op in adds:
         if True:
             for a in op[1]:
-                if a not in ("y", "r"):
+                if a not in ("y", "r", "rb"):
                     if a[1] in used:
                         return None
                     used.add(a[1])
@@ -546,7 +558,7 @@ def _script(rng, nextj, maxlen=5):
             s.append([rng.choice(["d", "d", "d", "sc", "sp"]), nextj[0]])
             nextj[0] += 1
         else:
-            s.append("r")
+            s.append(rng.choice(["r", "r", "rb"]))
             break
     return s
 
@@ -660,6 +672,14 @@ def gen(rng, tier):
             c["ops"].insert(rng.randrange(len(c["ops"]) // 2, len(c["ops"]) + 1), ["cstop"])
         c["react"] = react
         cases.append(c)
+    # an iterator raises an exception that is not an Exception subclass; the task fails, the others go on
+    for t in range(3):
+        for pos in range(3):
+            scripts = [["y", "y", "y"] for _ in range(3)]
+            scripts[pos] = ["y", "rb"]
+            ops = [["add", [], False]] * t + [["add", sc, False] for sc in scripts] + \
+                  [["wd", t + pos], ["tick", 2], ["tick", 2], ["tick", 3], ["wd", t + pos], ["tick", 20], ["pause", t + pos]]
+            cases.append({"started": True, "ops": ops})
     # bounded-exhaustive: short histories over a small alphabet on three fixed tasks
     alpha = [["tick", 1], ["tick", 2], ["pause", 0], ["resume", 0], ["stop", 1], ["fire", 0, True], ["fire", 0, False],
              ["cstop"], ["cstart"], ["wd", 1], ["pause", 1], ["resume", 1]]
@@ -707,7 +727,7 @@ def to_coq(case):
         return None           # re-entrant whenDone callbacks are outside the Coq model (oracle only)
 
     def act(a):
-        return "AYield" if a == "y" else "ARaise" if a == "r" else f"AYieldDef {a[1]}"
+        return "AYield" if a == "y" else "ARaise" if a in ("r", "rb") else f"AYieldDef {a[1]}"
 
     def op(o):
         k = o[0]
